@@ -499,6 +499,62 @@ class ParserAI:
                         res.append(ret(rav if not consumed else None, consumed=consumed))
                 return res
             return [ret(None)]
+        if name in ("copied", "cloned", "as_deref", "as_mut", "as_deref_mut") and ("Option" in path or "Result" in path) and argavs and argavs[0] is not None:
+            a = argavs[0]
+            return [ret(a[1] if a[0] == "ref" else a)]
+        if name in ("then_some", "then") and "bool" in path and argavs and argavs[0] is not None and argavs[0][0] == "b":
+            if not argavs[0][1]:
+                return [ret(("v", 0, None))]
+            return [ret(("v", 1, argavs[1] if name == "then_some" and len(argavs) > 1 else None))]
+        if name in ("ok_or", "ok_or_else") and "Option" in path and argavs and argavs[0] is not None and argavs[0][0] == "v":
+            a = argavs[0]
+            return [ret(("v", 0, a[2] if len(a) > 2 else None) if a[1] == 1 else ("v", 1, argavs[1] if name == "ok_or" and len(argavs) > 1 else None))]
+        if name in ("or", "and", "xor") and "Option" in path and len(argavs) == 2 and all(x is not None and x[0] == "v" for x in argavs):
+            a, b = argavs
+            if name == "or":
+                return [ret(a if a[1] == 1 else b)]
+            if name == "and":
+                return [ret(b if a[1] == 1 else ("v", 0, None))]
+            return [ret(None)]
+        if name in ("unwrap_or_else", "unwrap_or_default", "unwrap_or") and ("Option" in path or "Result" in path) and argavs \
+                and argavs[0] is not None and argavs[0][0] == "v":
+            a = argavs[0]
+            carries = (a[1] == 1) if "Option" in path else (a[1] == 0)
+            if carries:
+                return [ret(a[2] if len(a) > 2 else None)]
+            if name == "unwrap_or" and len(argavs) > 1:
+                return [ret(argavs[1])]
+            if name == "unwrap_or_else" and len(argavs) > 1:
+                fav = argavs[1]
+                while fav is not None and fav[0] == "ref":
+                    fav = fav[1]
+                if fav is not None and fav[0] == "fn" and self.analysable(fav[1]):
+                    res = []
+                    for rav, consumed in self.outcomes(fav[1], k, (), (None,)):
+                        res.append("PANIC" if rav == "!" else ret(rav if not consumed else None, consumed=consumed))
+                    return res
+            return [ret(None)]
+        if name == "filter" and "Option" in path and len(argavs) == 2 and argavs[0] is not None and argavs[0][0] == "v":
+            a = argavs[0]
+            if a[1] == 0:
+                return [ret(a)]
+            fav = argavs[1]
+            while fav is not None and fav[0] == "ref":
+                fav = fav[1]
+            if fav is not None and fav[0] == "fn" and self.analysable(fav[1]):
+                res = []
+                payload = a[2] if len(a) > 2 else None
+                for rav, consumed in self.outcomes(fav[1], k, (), (None, ("ref", payload) if payload is not None else None)):
+                    if rav == "!":
+                        res.append("PANIC")
+                    elif consumed:
+                        res.append(ret(None, consumed=True))
+                    elif rav is not None and rav[0] == "b":
+                        res.append(ret(a if rav[1] else ("v", 0, None)))
+                    else:
+                        res.append(ret(None))
+                return res
+            return [ret(None)]
         if name == "require" and argavs and argavs[0] is not None and argavs[0][0] == "b":
             return [ret(("v", 1, None) if argavs[0][1] else ("v", 0, None))]
         # --- a closure called directly: the arguments arrive as (closure, (args..)) and are spread in the body
